@@ -15,8 +15,12 @@
 #include <kit/recv.hpp>
 #include <kit/simstop.hpp>
 
+#include <unifex/any_scheduler.hpp>
 #include <unifex/any_sender_of.hpp>
 #include <unifex/inline_scheduler.hpp>
+#include <unifex/scheduler_concepts.hpp>
+#include <unifex/single_thread_context.hpp>
+#include <unifex/static_thread_pool.hpp>
 
 using namespace kit;
 
@@ -169,12 +173,122 @@ void body(const char* tokname) {
   { usim::np_scope np; delete w; }
 }
 
+
+template <class Source>
+struct VoidTokReceiver {
+  OpRec* rec;
+  Source* src;
+  void set_value() && noexcept { rec->complete(CH_VALUE, 0); }
+  template <class E>
+  void set_error(E&&) && noexcept { rec->complete(CH_ERROR); }
+  void set_done() && noexcept { rec->complete(CH_DONE); }
+  friend auto tag_invoke(unifex::tag_t<unifex::get_stop_token>, const VoidTokReceiver& r) noexcept { return r.src->get_token(); }
+};
+
+// ------------------------------------------------------------------ any_scheduler / any_scheduler_ref
+// The wrapper must behave like the scheduler it wraps: schedule() through it completes where (and as)
+// schedule() of the wrapped scheduler does, copies compare equal, wrappers of different schedulers
+// (another context, another type) compare unequal, a failed connect leaves nothing behind.
+template <class Source>
+void body_sched(const char* tokname) {
+  struct SW {
+    OpRec rec[4];
+    arena_box<Source> src;
+  };
+  SW* w;
+  { usim::np_scope np; w = new SW(); }
+  int kind = draw(3);  // 0 inline, 1 single_thread_context, 2 static_thread_pool
+  int nops = draw_range(1, 4);
+  bool use_ref = draw(3) == 0;
+  int stop_at = draw(5);   // stop requested before operation #stop_at is connected (>= nops: never)
+  int alloc_at = draw(6);  // allocation failures while operation #alloc_at is connected (>= nops: never)
+  if (alloc_at < nops) usim_fault_rate(USIM_F_ALLOC, 500);
+  usim_sample("any_scheduler%s over %s token: kind=%d ops=%d stop_at=%d alloc_at=%d", use_ref ? "_ref" : "", tokname, kind, nops, stop_at, alloc_at);
+  w->src.construct();
+  arena_box<unifex::single_thread_context> c1, c2;
+  arena_box<unifex::static_thread_pool> pool;
+  c1.construct();
+  c2.construct();
+  pool.construct(2u);
+  std::thread::id ctx_thread = c1->get_thread_id();
+  auto run_with = [&](auto sched, auto other_same_type) {
+    unifex::any_scheduler as = sched;
+    unifex::any_scheduler copy = as;
+    unifex::any_scheduler other = other_same_type;
+    unifex::any_scheduler inl = unifex::inline_scheduler{};
+    {
+      usim::np_scope np;
+      KIT_CHECK(as == copy && !(as != copy), "c18.transparent", "a copy of an any_scheduler does not compare equal to the original");
+      bool same = sched == other_same_type;
+      KIT_CHECK((as == other) == same, "c18.transparent", "any_scheduler equality (%d) differs from the wrapped schedulers' equality (%d)", (int)(as == other), (int)same);
+      if (kind != 0) KIT_CHECK(as != inl, "c18.transparent", "any_scheduler over a thread context compares equal to any_scheduler over inline_scheduler");
+    }
+    for (int i = 0; i < nops; ++i) {
+      OpRec& rec = w->rec[i];
+      rec.what = "schedule(any_scheduler)";
+      rec.a = i;
+      rec.oracle_double = "c01.double-signal";
+      if (i == stop_at) { { usim::np_scope np; rec.stop_begin = seq(); } user_stop(*w->src); }
+      bool stopped = i >= stop_at;
+      using VoidReceiver = VoidTokReceiver<Source>;
+      int start_tid = usim_here();
+      bool threw = false;
+      auto drive = [&](auto snd) {
+        using Op = unifex::connect_result_t<decltype(snd), VoidReceiver>;
+        arena_box<Op> op;
+        if (i == alloc_at) usim_alloc_fault_window(1);
+        try {
+          op.construct_with([&] { return unifex::connect(std::move(snd), VoidReceiver{&rec, w->src.p}); });
+        } catch (const std::bad_alloc&) {
+          usim::np_scope np; threw = true; usim_probe("allocation of the erased schedule operation failed");
+        }
+        if (i == alloc_at) usim_alloc_fault_window(0);
+        if (threw) return;
+        rec.begin_start();
+        unifex::start(*op);
+        rec.end_start();
+        rec.wait();
+        op.destroy();
+      };
+      if (use_ref) { unifex::any_scheduler_ref ref = as; drive(unifex::schedule(ref)); }
+      else drive(unifex::schedule(as));
+      usim::np_scope np;
+      if (threw) {
+        KIT_CHECK(rec.completions == 0, "c18.transparent", "connect threw but the receiver was completed");
+        KIT_CHECK(live_regs(*w->src) == 0, "c18.transparent", "connect threw, yet %d stop callback(s) are still registered on the receiver's stop source", live_regs(*w->src));
+        continue;
+      }
+      KIT_CHECK(rec.completions == 1, "c01.lost-completion", "schedule() through any_scheduler never completed");
+      KIT_CHECK(rec.channel != CH_ERROR, "c18.transparent", "schedule() through any_scheduler completed with an error");
+      if (!stopped) KIT_CHECK(rec.channel == CH_VALUE, "c18.transparent", "schedule() through any_scheduler completed with done although stop was never requested");
+      if (rec.channel == CH_VALUE) {
+        if (kind == 0) KIT_CHECK(rec.in_start && rec.done_tid == start_tid, "c18.transparent", "schedule(any_scheduler(inline_scheduler)) did not complete inline");
+        if (kind == 1) KIT_CHECK(rec.done_thread == ctx_thread, "c18.transparent", "schedule(any_scheduler(ctx scheduler)) completed on T%d, not on the context's thread", rec.done_tid);
+        if (kind == 2) KIT_CHECK(rec.done_tid != start_tid, "c18.transparent", "schedule(any_scheduler(pool scheduler)) completed on the starting thread");
+        usim_probe("scheduled through the wrapper");
+      }
+      KIT_CHECK(live_regs(*w->src) == 0, "c18.transparent", "%d stop callback(s) still registered after the operation completed and was destroyed", live_regs(*w->src));
+    }
+  };
+  if (kind == 0) run_with(unifex::inline_scheduler{}, unifex::inline_scheduler{});
+  else if (kind == 1) { if (draw(2)) run_with(c1->get_scheduler(), c2->get_scheduler()); else run_with(c1->get_scheduler(), c1->get_scheduler()); }
+  else run_with(pool->get_scheduler(), pool->get_scheduler());
+  c1.destroy();
+  c2.destroy();
+  pool.destroy();
+  w->src.destroy();
+  { usim::np_scope np; delete w; }
+}
+void body_sched_sim(void*) { body_sched<kit::sim_stop_source>("third-party"); }
+void body_sched_inplace(void*) { body_sched<unifex::inplace_stop_source>("inplace"); }
+
 void body_sim(void*) { body<kit::sim_stop_source>("third-party"); }
 void body_inplace(void*) { body<unifex::inplace_stop_source>("inplace"); }
 
 }  // namespace wanysnd
 
 int main(int argc, char** argv) {
-  static const usim_workload table[] = {{"anysnd_sim", wanysnd::body_sim}, {"anysnd_inplace", wanysnd::body_inplace}};
-  return usim_main(argc, argv, table, 2);
+  static const usim_workload table[] = {{"anysnd_sim", wanysnd::body_sim}, {"anysnd_inplace", wanysnd::body_inplace},
+                                       {"anysched_sim", wanysnd::body_sched_sim}, {"anysched_inplace", wanysnd::body_sched_inplace}};
+  return usim_main(argc, argv, table, 4);
 }
